@@ -181,6 +181,7 @@ def _collect(fi, inline_depth=60, keep=()):
     effects = []
     cands = []
     _ann = {}
+    _ann_rev = {}
     mut = mutated_locals(fi)
     keep = set(keep) | mut
 
@@ -216,6 +217,7 @@ def _collect(fi, inline_depth=60, keep=()):
                 s2 = ast.Assign(targets=[s.target], value=s.value, lineno=s.lineno, col_offset=s.col_offset)
                 s2.end_lineno, s2.end_col_offset = getattr(s, 'end_lineno', s.lineno), getattr(s, 'end_col_offset', 0)
                 _ann[id(s2)] = s
+                _ann_rev[id(s2)] = s
                 s = s2
             if isinstance(s, ast.If):
                 t_in = inl(s.test, s.test)
@@ -323,6 +325,33 @@ def _collect(fi, inline_depth=60, keep=()):
                     surviving |= new
                 changed = True
     effects.extend(sorted(used, key=lambda e: (e.node.lineno, e.node.col_offset)))
+    # an assignment whose value is never read (dead, or re-bound before any read) still EVALUATES its right-hand side: a
+    # call in it is made for whatever it does (`region = assign_lines_to_regions(.., [region])[0]` fills the region)
+    read_defs = set()
+    for n in ast.walk(fi.node):
+        if isinstance(n, ast.Name) and isinstance(n.ctx, ast.Load):
+            try:
+                for d in flow.defs_reaching(n.id, n):
+                    read_defs.add(id(d))
+            except AnalysisError:
+                read_defs.add(('name', n.id))
+    by_stmt = {}
+    for ds in flow.defs_at.values():
+        for d in ds:
+            if d.kind == 'assign' and d.stmt is not None:
+                by_stmt.setdefault(id(d.stmt), []).append(d)
+    used_ids = {id(u) for u in used}
+    for cnd in cands:
+        if id(cnd) in used_ids or not cnd.kind.startswith('bind:'):
+            continue
+        nm = cnd.kind.split(':', 1)[1]
+        ds = by_stmt.get(id(_ann_rev.get(id(cnd.node), cnd.node)), []) or by_stmt.get(id(cnd.node), [])
+        ds = [d for d in ds if d.name == nm]
+        if not ds or ('name', nm) in read_defs or any(id(d) in read_defs for d in ds):
+            continue
+        raw = cnd.node.value if isinstance(cnd.node, ast.Assign) else None
+        if raw is not None and any(isinstance(x, ast.Call) for x in ast.walk(raw)) and isinstance(cnd.value, ast.AST):
+            effects.append(Effect('call', list(cnd.ctx), None, cnd.value, cnd.node))
     effects.sort(key=lambda e: (e.node.lineno, e.node.col_offset))
     return effects
 
@@ -1377,6 +1406,86 @@ def compare(fi, tmpl, keep=()):
                 eb_copy = Effect('order:' + eb.kind, eb.ctx, eb.target, eb.value, eb.node)
                 eb_copy.key = eb.key
                 return False, [eb_copy], [ea_copy]
+        # order on objects shared with the caller (self, parameters): an in-place write (attribute / element store, a call
+        # made for its effect on the receiver or on an argument) keeps its place relative to every effect that reads or
+        # writes the same object path
+        self_idx = list(fi.params).index('self') if 'self' in fi.params else None
+
+        def root_path(t):
+            chain = []
+            while isinstance(t, tuple) and t and t[0] in ('attr', 'sub'):
+                chain.append(t)
+                t = t[1]
+            if not (isinstance(t, tuple) and len(t) == 2 and t[0] == 'param'):
+                return None
+            parts = [t]
+            for c in reversed(chain):
+                if c[0] == 'attr':
+                    parts.append(c[2])
+                else:
+                    break
+            return tuple(parts)
+
+        def all_paths(t, out):
+            if isinstance(t, tuple):
+                rp = root_path(t) if t and t[0] in ('attr', 'sub', 'param') else None
+                if rp is not None:
+                    out.add(rp)
+                if t and t[0] == 'fn' and isinstance(t[1], str) and t[1].startswith('self.') and self_idx is not None:
+                    out.add((('param', self_idx),) + tuple(t[1].split('.')[1:-1]))
+                for x in t:
+                    all_paths(x, out)
+            return out
+
+        def rw(e):
+            k = e.key
+            reads = all_paths((k[1], k[2], k[3]), set())
+            writes = set()
+            if k[0] == 'store':
+                rp = root_path(k[2])
+                if rp is not None:
+                    writes.add(rp)
+            elif k[0] == 'call' and isinstance(k[3], tuple) and k[3] and k[3][0] == 'call':
+                fnc, args = k[3][1], k[3][2]
+                if fnc[0] == 'fn' and isinstance(fnc[1], str) and fnc[1].startswith('self.') and self_idx is not None:
+                    writes.add((('param', self_idx),) + tuple(fnc[1].split('.')[1:-1]))
+                elif fnc[0] == 'attr':
+                    rp = root_path(fnc[1])
+                    if rp is not None:
+                        writes.add(rp)
+                for a_ in args:
+                    rp = root_path(a_)
+                    if rp is not None:
+                        writes.add(rp)
+            return reads, writes
+
+        def related(p, q):
+            n = min(len(p), len(q))
+            return p[:n] == q[:n]
+        info = [rw(e) for e in a]
+        if any(w for _, w in info):
+            used = set()
+            pos = []
+            for ea in a:
+                j = next((j for j, eb in enumerate(b) if j not in used and eb.key == ea.key), None)
+                used.add(j)
+                pos.append(j)
+            for i in range(len(a)):
+                ri, wi = info[i]
+                for j in range(i + 1, len(a)):
+                    if pos[i] is None or pos[j] is None or pos[i] < pos[j]:
+                        continue
+                    rj, wj = info[j]
+                    if not ((wi and any(related(w, p) for w in wi for p in (rj | wj))) or (wj and any(related(w, p) for w in wj for p in (ri | wi)))):
+                        continue
+                    if exclusive(a[i], a[j]) or independent(a[i], a[j]):
+                        continue
+                    ea, eb = a[i], b[pos[j]]
+                    ea_copy = Effect('order:' + ea.kind, ea.ctx, ea.target, ea.value, ea.node)
+                    ea_copy.key = ea.key
+                    eb_copy = Effect('order:' + eb.kind, eb.ctx, eb.target, eb.value, eb.node)
+                    eb_copy.key = eb.key
+                    return False, [eb_copy], [ea_copy]
     return (not extra and not missing), missing, extra
 
 
